@@ -1,4 +1,7 @@
 """C22 — subgrid extraction and partitioning preserve the parent grid."""
+import warnings
+from fractions import Fraction
+
 import numpy as np
 import scipy.sparse as sps
 
@@ -30,11 +33,98 @@ def build(rec):
         for d in range(g.dim):
             for i in range(nn):
                 g.nodes[d, i] += pert[(d * nn + i) % len(pert)] / 16.0
+    var = rec.get("var") or {}
+    if var.get("scale") or var.get("shift") or var.get("axes"):
+        # exact power-of-two scaling, dyadic translation, permutation of the coordinate axes
+        # (1-D / 2-D grids embedded in other coordinate lines / planes)
+        x = g.nodes * (2.0 ** var.get("scale", 0))
+        x = x[var.get("axes", [0, 1, 2])]
+        x = x + np.array(var.get("shift", [0.0, 0.0, 0.0])).reshape(3, 1)
+        g.nodes = x
+    if var.get("renum"):
+        g = renumbered(g, var["renum"])
     g.compute_geometry()
+    if var.get("storage"):
+        # the same csc matrices with another (legal) storage: column entries in reversed
+        # order (has_sorted_indices False) and/or another value dtype
+        st = var["storage"]
+        cf = g.cell_faces.tocsc().copy()
+        fn = g.face_nodes.tocsc().copy()
+        if st.get("reverse_cf"):
+            cf = _reverse_columns(cf)
+        if st.get("reverse_fn") and g.dim < 3:      # 3-D: node order of a face is meaningful
+            fn = _reverse_columns(fn)
+        if st.get("cf_dtype"):
+            cf = sps.csc_matrix((cf.data.astype(st["cf_dtype"]), cf.indices, cf.indptr), shape=cf.shape)
+        g.cell_faces, g.face_nodes = cf, fn
     return g
 
 
+def _reverse_columns(m):
+    ind, dat = m.indices.copy(), m.data.copy()
+    for j in range(m.shape[1]):
+        lo, hi = m.indptr[j], m.indptr[j + 1]
+        ind[lo:hi] = ind[lo:hi][::-1]
+        dat[lo:hi] = dat[lo:hi][::-1]
+    out = sps.csc_matrix((dat, ind, m.indptr.copy()), shape=m.shape)
+    out.has_sorted_indices = False
+    return out
+
+
+def renumbered(g, ren):
+    """The same grid with permuted node / face / cell numbers, through the public pp.Grid
+    constructor (only for dim <= 2, where the stored node order of a face carries no meaning)."""
+    pn, pf, pc = (np.array(ren[k], dtype=int) for k in ("pn", "pf", "pc"))
+    nn, nf, nc = g.num_nodes, g.num_faces, g.num_cells
+    Pn = sps.csc_matrix((np.ones(nn, dtype=int), (pn, np.arange(nn))), shape=(nn, nn))
+    Pf = sps.csc_matrix((np.ones(nf, dtype=int), (pf, np.arange(nf))), shape=(nf, nf))
+    Pc = sps.csc_matrix((np.ones(nc, dtype=int), (pc, np.arange(nc))), shape=(nc, nc))
+    nodes = np.zeros_like(g.nodes)
+    nodes[:, pn] = g.nodes
+    fn = (Pn @ g.face_nodes.astype(int) @ Pf.T).tocsc().astype(bool)
+    cf = (Pf @ g.cell_faces.astype(int) @ Pc.T).tocsc()
+    fn.sort_indices()
+    cf.sort_indices()
+    return pp.Grid(g.dim, nodes, fn, cf, "renumbered")
+
+
+def gen_variant(rng, rec):
+    """Random corner of the input space for a grid recipe (40% of the grids)."""
+    if rng.random() < 0.6:
+        return rec
+    var = {}
+    dim = len(rec["dims"]) if "dims" in rec else len(rec["coords"])
+    if rng.random() < 0.5:
+        var["scale"] = rng.choice([-30, -12, -3, 2, 10, 24])
+    if rng.random() < 0.4:
+        var["shift"] = [rng.choice([-1024.0, -3.5, 0.0, 0.25, 512.0]) for _ in range(3)]
+    if dim < 3 and rng.random() < 0.4:
+        ax = [0, 1, 2]
+        rng.shuffle(ax)
+        var["axes"] = ax
+    if dim < 3 and rng.random() < 0.4:
+        g = build(rec)
+        pn, pf, pc = list(range(g.num_nodes)), list(range(g.num_faces)), list(range(g.num_cells))
+        rng.shuffle(pn), rng.shuffle(pf), rng.shuffle(pc)
+        var["renum"] = {"pn": pn, "pf": pf, "pc": pc}
+    if rng.random() < 0.5:
+        var["storage"] = {"reverse_cf": rng.random() < 0.6, "reverse_fn": rng.random() < 0.5,
+                          "cf_dtype": rng.choice([None, "float64", "int8", "int64"])}
+    out = dict(rec, var=var)
+    try:
+        build(out)
+    except (ValueError, AssertionError):
+        # compute_geometry refuses the variant (absolute tolerances inside the geometry code at
+        # tiny scales, C19/C20 territory): not a grid of this property's domain
+        return rec
+    return out
+
+
 def gen_grid(rng, tier, max_cells=None, tensor_only=False):
+    return gen_variant(rng, _gen_grid(rng, tier, max_cells, tensor_only))
+
+
+def _gen_grid(rng, tier, max_cells=None, tensor_only=False):
     big = tier != "quick"
     r = rng.random()
     if tensor_only:
@@ -69,6 +159,27 @@ def gen_grid(rng, tier, max_cells=None, tensor_only=False):
                 # not a grid of the property's domain, use the unperturbed one
                 del rec["perturb"]
     return rec
+
+
+def _snap(g):
+    """Everything of the parent grid the functions under test could overwrite."""
+    # cell_faces as a matrix (scipy's abs()/sum_duplicates(), used by g.cell_nodes(), may re-sort
+    # the entries of a column in place: the same matrix, not a modification of the grid);
+    # face_nodes entry by entry (the stored node order of a face is meaningful in 3-D)
+    cf = sps.coo_matrix(g.cell_faces)
+    order = np.lexsort((cf.row, cf.col))
+    parts = [g.nodes, cf.row[order], cf.col[order], np.asarray(cf.data)[order].astype(float),
+             np.array(g.cell_faces.shape),
+             g.face_nodes.data, g.face_nodes.indices, g.face_nodes.indptr]
+    for name in GEOM:
+        if hasattr(g, name):
+            parts.append(getattr(g, name))
+    return [np.array(a, copy=True) for a in parts] + [g.cell_faces.format, g.face_nodes.format]
+
+
+def _changed(a, b):
+    return any((x != y) if isinstance(x, str) else (x.shape != y.shape or not np.array_equal(x, y))
+               for x, y in zip(a, b))
 
 
 def _csc_cols(m):
@@ -132,8 +243,9 @@ GEOM = ("cell_volumes", "cell_centers", "face_areas", "face_centers", "face_norm
 class C22(Prop):
     id = "C22"
     props_file = "Props/C22.v"
-    preamble = ("From Coq Require Import List ZArith.\nImport ListNotations.\n"
-                "From PP Require Import Model.C22.\nOpen Scope nat_scope.\n")
+    preamble = ("From Coq Require Import List ZArith QArith.\nImport ListNotations.\n"
+                "From PP Require Import Model.C22 Model.C19 Model.C22_geom.\n"
+                "Close Scope Q_scope.\nOpen Scope nat_scope.\n")
     n_cases = (260, 3200)
     design_ref = "DESIGN.md §5 C22"
     level_text = (
@@ -145,8 +257,12 @@ class C22(Prop):
         "of the selected cells, and map every local column back to the parent's column with the "
         "same values and the same stored order (C22_maps); hence every per-face/per-cell view "
         "(signed faces with their ordered node coordinates) of the subgrid equals the parent's "
-        "(C22_geometry); every structured partition with 1 <= coarse <= fine has one id per cell "
-        "within [0, prod coarse), coarse > fine raises ValueError (C22_structured_partition*); overlap layer "
+        "(C22_geometry); in 2-D the C19 transcription of _compute_geometry_2d evaluated on the extracted "
+        "subgrid returns exactly the parent's volumes, centres, squared face areas, face centres and "
+        "normals at the extracted cells/faces, orientation checks and plane sign included "
+        "(C22_geometry_2d); every structured partition with 1 <= coarse <= fine has one id per cell "
+        "within [0, prod coarse) and every id is used, coarse > fine raises ValueError "
+        "(C22_structured_partition*); overlap layer "
         "n+1 is exactly layer n plus all cells sharing a node/face with it, layers are monotone "
         "(C22_overlap_*).  The model is tied to the code on every run by executing both on random "
         "cell subsets of real Cartesian/tensor/triangle/tetrahedral grids in 1-3-D, random coarse "
@@ -155,27 +271,35 @@ class C22(Prop):
     level_note = (
         "Proved about the model; the implementation is covered on generated inputs only. NOT proved "
         "(oracle only, on every run): equality of the floating-point geometry recomputed by "
-        "compute_geometry() on the subgrid with the parent's (the theorem gives equality of "
+        "compute_geometry() on the subgrid with the parent's in 1-D and 3-D and for embedded grids "
+        "(in 2-D, z = 0, it is a theorem about the C19 model, C22_geometry_2d, and that model is "
+        "tied to compute_geometry of every extracted 2-D subgrid on every run; the theorem gives equality of "
         "everything a per-cell/per-face formula reads; face-normal orientation uses a neighbouring "
         "cell and rounding is outside the model); partition_coordinates, determine_coarse_dimensions "
         "(float roots; only its contract 1<=coarse<=fine is checked and used as hypothesis of the "
         "num_part path), partition(), partition_grid, grid_is_connected (networkx) and the "
-        "faces=True branch are checked by brute-force oracles only; partition_metis is absent on "
-        "this image.  Trusted: Coq kernel + vm_compute, the harness, scipy's csc storage "
+        "faces=True branch of extract_subgrid are checked by brute-force oracles only; partition_metis is absent on "
+        "this image; the faces=True branch (1-D/2-D parents: manifold face sets, 3-D Cartesian parents: "
+        "faces of one plane) is oracle-only as well.  Trusted: Coq kernel + vm_compute, the harness, scipy's csc storage "
         "(indices/indptr/data) as the meaning of the incidence matrices, g.cell_nodes() as the "
         "node pattern handed to overlap.")
     technique = ("Coq proof (list/incidence lemmas, induction over layers, lia/nia on the index "
                  "arithmetic) + vm_compute execution correspondence + brute-force oracles")
-    rule = ("kinds: extract 38% (random cell subsets, connected or not, index list / bool mask / "
+    rule = ("40% of all grids in a corner of the input space: coordinates times 2^k (k = -30..24), dyadic "
+            "translations up to 1024, permuted coordinate axes (1-D/2-D grids in other lines/planes), "
+            "permuted node/face/cell numbering (dim <= 2), csc storage with reversed column entries "
+            "(unsorted indices) and int8/int64/float64 values; every call is checked not to modify the "
+            "parent grid or the index array; coarse_dims as list/int32/float array; overlap criterion "
+            "spellings, list input, depth 5. kinds: extract 38% (random cell subsets, connected or not, index list / bool mask / "
             "unsorted with sort=False / out-of-range index / wrong-size mask) on Cartesian, tensor, "
             "structured triangle and tetrahedral grids in 1-3-D, half of them with dyadic node "
             "perturbations; pstruct 22% (random fine/coarse dims incl. coarse>fine error inputs and "
             "the num_part path); overlap 20% (depths 0-3, both criteria, empty/single/out-of-range "
-            "sets); pcoord/partition/pgrid/connected 20% (oracle only). non-trivial = non-empty "
+            "sets); pcoord/partition/pgrid/connected/faces=True 20% (oracle only). non-trivial = non-empty "
             "proper subset / more than one part / at least one layer; distinct by (case, output)")
     trusted = ["scipy csc storage order is the meaning of cell_faces/face_nodes columns",
                "g.cell_nodes() (sparse product) supplies the node pattern of overlap",
-               "float geometry comparison: |a-b| <= 1e-12*(1+|b|) on dyadic coordinates (oracle only)"]
+               "float geometry comparison: |a-b| <= 1e-9*max|parent array| (positions: of the node coordinates) on dyadic coordinates"]
     assumptions = ["cell index lists without duplicates and without negative indices (a 'set of "
                    "cells'); 1 <= coarse_dims <= fine dims for the partition theorem (other inputs: "
                    "error branch covered by the tie)",
@@ -242,7 +366,8 @@ class C22(Prop):
         r = rng.random()
         if r < 0.7:
             coarse = [rng.randint(1, f) for f in fine]
-            return {"kind": "pstruct", "fine": fine, "coarse": coarse, "num_part": None}
+            return {"kind": "pstruct", "fine": fine, "coarse": coarse, "num_part": None,
+                    "cd_type": rng.choice([None, None, "int32", "float", "list"])}
         if r < 0.8:
             coarse = [rng.randint(1, f + 2) for f in fine]
             return {"kind": "pstruct", "fine": fine, "coarse": coarse, "num_part": None}
@@ -260,11 +385,49 @@ class C22(Prop):
             cells = cells + [cells[0]]
         if rng.random() < 0.05:
             cells = cells + [g.num_cells]
-        return {"kind": "overlap", "grid": rec, "cells": cells,
-                "layers": rng.choice([0, 1, 1, 2, 2, 3]),
-                "criterion": rng.choice(["node", "face"])}
+        crit = rng.choice(["node", "face"])
+        case = {"kind": "overlap", "grid": rec, "cells": cells,
+                "layers": rng.choice([0, 1, 1, 2, 2, 3, 5]), "criterion": crit}
+        if rng.random() < 0.2:
+            # documented: criterion.lower().strip()
+            case["spelling"] = rng.choice([crit.upper(), " " + crit.capitalize() + " ", crit + "  "])
+        if rng.random() < 0.2 and cells:
+            case["as_list"] = True
+        return case
+
+    def _gen_faces(self, rng, tier):
+        """extract_subgrid(..., faces=True): a lower-dimensional grid from a set of faces
+        (oracle only).  2-D parents: any face set; 3-D Cartesian parents: faces of one plane."""
+        while True:
+            rec = _gen_grid(rng, tier)
+            g = build(rec)
+            if g.dim == 1:
+                return {"kind": "xfaces", "grid": rec, "faces": [rng.randrange(g.num_faces)]}
+            if g.dim == 2:
+                # a 1-D grid is a manifold: at most two selected faces meet in a node
+                k = rng.randint(1, g.num_faces)
+                deg, chosen = {}, []
+                fn = _csc_cols(g.face_nodes)
+                for f in rng.sample(range(g.num_faces), g.num_faces):
+                    ns = [r for r, _ in fn[f]]
+                    if len(chosen) < k and all(deg.get(n, 0) < 2 for n in ns):
+                        chosen.append(f)
+                        for n in ns:
+                            deg[n] = deg.get(n, 0) + 1
+                return {"kind": "xfaces", "grid": rec, "faces": sorted(chosen)}
+            if rec["kind"] in ("cart", "tensor"):
+                ax = rng.randrange(3)
+                vals = sorted(set(np.round(g.face_centers[ax], 12)))
+                nrm = np.abs(g.face_normals[ax]) > 0.5 * g.face_areas
+                lvl = rng.choice(vals)
+                cand = [f for f in range(g.num_faces) if nrm[f] and abs(g.face_centers[ax, f] - lvl) < 1e-12]
+                if cand:
+                    k = rng.randint(1, len(cand))
+                    return {"kind": "xfaces", "grid": rec, "faces": sorted(rng.sample(cand, k))}
 
     def _gen_other(self, rng, tier):
+        if rng.random() < 0.25:
+            return self._gen_faces(rng, tier)
         r = rng.random()
         if r < 0.35:
             rec = gen_grid(rng, tier)
@@ -292,8 +455,11 @@ class C22(Prop):
         if h.num_cells > 0:
             # (an empty subgrid is extracted, but compute_geometry is not defined on it)
             h2 = h.copy()
-            h2.compute_geometry()
+            with warnings.catch_warnings(record=True) as w:
+                warnings.simplefilter("always")
+                h2.compute_geometry()
             geo = {name: np.asarray(getattr(h2, name)).tolist() for name in GEOM}
+            geo["fallback"] = any("Orientations are inconsistent" in str(x.message) for x in w)
         copied = {name: np.asarray(getattr(h, name)).tolist() for name in GEOM}
         return {"cf": _csc_cols(h.cell_faces), "fn": _csc_cols(h.face_nodes),
                 "faces": [int(x) for x in uf], "nodes": [int(x) for x in un],
@@ -307,11 +473,27 @@ class C22(Prop):
             g = build(case["grid"])
             c = (np.array(case["c"], dtype=bool) if case["mode"] == "mask"
                  else np.array(case["c"], dtype=int))
+            before = _snap(g)
+            c_in = c.copy()
             try:
                 h, uf, un = part.extract_subgrid(g, c, sort=case["sort"])
             except IndexError:
-                return {"err": "IndexErr"}
-            return self._sub_result(g, h, uf, un)
+                return {"err": "IndexErr", "parent_changed": _changed(before, _snap(g))}
+            out = self._sub_result(g, h, uf, un)
+            out["parent_changed"] = _changed(before, _snap(g)) or not np.array_equal(c, c_in)
+            return out
+        if k == "xfaces":
+            g = build(case["grid"])
+            before = _snap(g)
+            h, f, un = part.extract_subgrid(g, np.array(case["faces"], dtype=int), faces=True)
+            cn = h.cell_nodes().tocsc() if h.dim > 0 else None
+            return {"dim": int(h.dim), "f": [int(x) for x in np.atleast_1d(f)],
+                    "un": [int(x) for x in np.atleast_1d(un)], "ncells": int(h.num_cells),
+                    "xyz": h.nodes.tolist(), "vol": h.cell_volumes.tolist(),
+                    "cc": h.cell_centers.tolist(),
+                    "cnodes": ([[int(i) for i in cn.indices[cn.indptr[j]:cn.indptr[j + 1]]]
+                                for j in range(h.num_cells)] if cn is not None else None),
+                    "parent_changed": _changed(before, _snap(g))}
         if k == "pstruct":
             g = pp.CartGrid(np.array(case["fine"]))
             fine = g.cart_dims
@@ -319,7 +501,10 @@ class C22(Prop):
             try:
                 if case["coarse"] is not None:
                     used = case["coarse"]
-                    p = part.partition_structured(g, coarse_dims=np.array(used))
+                    cd = {"list": lambda u: list(u), "int32": lambda u: np.array(u, dtype=np.int32),
+                          "float": lambda u: np.array(u, dtype=float),
+                          None: lambda u: np.array(u)}[case.get("cd_type")](used)
+                    p = part.partition_structured(g, coarse_dims=cd)
                 else:
                     used = [int(x) for x in part.determine_coarse_dimensions(case["num_part"], fine)]
                     p = part.partition_structured(g, num_part=case["num_part"])
@@ -331,10 +516,14 @@ class C22(Prop):
             return {"ids": [int(x) for x in p], "used": used}
         if k == "overlap":
             g = build(case["grid"])
+            before = _snap(g)
             outs = []
             for n in range(case["layers"] + 1):
                 try:
-                    o = part.overlap(g, np.array(case["cells"], dtype=int), n, case["criterion"])
+                    ci = np.array(case["cells"], dtype=int)
+                    if case.get("as_list"):
+                        ci = list(case["cells"])
+                    o = part.overlap(g, ci, n, case.get("spelling") or case["criterion"])
                     if np.ndim(o) != 1:
                         outs.append({"err": "Other", "what": f"result has {np.ndim(o)} dimensions"})
                     else:
@@ -343,7 +532,7 @@ class C22(Prop):
                     outs.append({"err": "IndexErr"})
                 except Exception as e:
                     outs.append({"err": "Other", "what": type(e).__name__})
-            return {"layers": outs}
+            return {"layers": outs, "parent_changed": _changed(before, _snap(g))}
         if k in ("pcoord", "partition"):
             g = build(case["grid"])
             seen = []
@@ -427,7 +616,10 @@ class C22(Prop):
             for name in GEOM:
                 a = np.array(res[which][name], dtype=float).reshape(par[name].shape)
                 b = par[name]
-                if a.size and np.max(np.abs(a - b) - 1e-12 * (1 + np.abs(b))) > 0:
+                mag = max(np.max(np.abs(b)), np.finfo(float).tiny) if b.size else 1.0
+                if name in ("cell_centers", "face_centers"):
+                    mag = max(mag, np.max(np.abs(g.nodes)))
+                if a.size and np.max(np.abs(a - b)) > 1e-9 * mag:
                     return f"{which} {name} differs from the parent's on the extracted entities"
         return None
 
@@ -440,6 +632,11 @@ class C22(Prop):
         return share
 
     def oracle(self, case, res):
+        if isinstance(res, dict) and res.get("parent_changed"):
+            return "the parent grid (or the index array handed in) was modified by the call"
+        return self._oracle(case, res)
+
+    def _oracle(self, case, res):
         k = case["kind"]
         if k == "extract":
             g = build(case["grid"])
@@ -454,6 +651,31 @@ class C22(Prop):
             if not valid:
                 return "invalid cell set accepted"
             return self._check_sub(g, cells, res, expect_sorted=case["sort"] or case["mode"] == "mask")
+        if k == "xfaces":
+            g = build(case["grid"])
+            fs = sorted(case["faces"])
+            if res["dim"] != g.dim - 1 or res["ncells"] != len(fs) or res["f"] != fs:
+                return f"faces {fs}: got dim {res['dim']}, {res['ncells']} cells, face map {res['f']}"
+            pfn = _csc_cols(g.face_nodes)
+            exp_n = sorted({r for f in fs for r, _ in pfn[f]})
+            if res["un"] != exp_n:
+                return f"node map {res['un']} is not the sorted list of the nodes of the faces {exp_n}"
+            xyz = np.array(res["xyz"]).reshape(3, -1)
+            if res["dim"] > 0 and not np.array_equal(xyz, g.nodes[:, exp_n]):
+                # (a PointGrid keeps its point in cell_centers, checked below)
+                return "nodes of the face grid are not the parent's nodes at the node map"
+            vol, cc = np.array(res["vol"]), np.array(res["cc"]).reshape(3, -1)
+            if g.dim > 1:
+                mag = max(np.max(np.abs(g.face_areas[fs])), np.finfo(float).tiny)
+                if np.max(np.abs(vol - g.face_areas[fs])) > 1e-9 * mag:
+                    return "cell volumes of the face grid differ from the parent's face areas"
+                for j, f in enumerate(fs):
+                    if sorted(exp_n[i] for i in res["cnodes"][j]) != sorted(r for r, _ in pfn[f]):
+                        return f"cell {j} of the face grid does not have the nodes of parent face {f}"
+            mag = max(np.max(np.abs(g.nodes)), np.finfo(float).tiny)
+            if np.max(np.abs(cc - g.face_centers[:, fs])) > 1e-9 * mag:
+                return "cell centres of the face grid differ from the parent's face centres"
+            return None
         if k == "pstruct":
             fine, used = case["fine"], res.get("used")
             if case["coarse"] is None:
@@ -570,7 +792,27 @@ class C22(Prop):
                                        "sg_cells := %s |}" % (_csc(r["cf"]), _csc(r["fn"]),
                                                               _nats(r["faces"]), _nats(r["nodes"]),
                                                               _nats(r["cells"]))))
-            return f"agree_extract {_csc(cf)} {_csc(fn)} {c} {cbool(case['sort'])} {out}"
+            term = f"agree_extract {_csc(cf)} {_csc(fn)} {c} {cbool(case['sort'])} {out}"
+            geo = None if "err" in res else res.get("recomputed")
+            if g.dim == 2 and geo is not None and np.all(g.nodes[2] == 0):
+                # compute_geometry() of the real subgrid against the C19 geometry model evaluated
+                # on the model's extraction (exact Q, relative band 1e-9 inside agree2)
+                qq = lambda x: "(%d#%d)%%Q" % Fraction(float(x)).as_integer_ratio()
+                qp = lambda p: f"({qq(p[0])},{qq(p[1])})"
+                cols2 = lambda a: [np.asarray(a, dtype=float).reshape(3, -1)[:2, i]
+                                   for i in range(np.asarray(a).reshape(3, -1).shape[1])]
+                if geo["fallback"]:
+                    impl = "None"
+                else:
+                    sq = lambda x: "(%d#%d)%%Q" % (Fraction(float(x)) ** 2).as_integer_ratio()
+                    impl = ("(Some {| o_area2 := %s; o_fc := %s; o_fn := %s; o_vol := %s; o_cc := %s |})"
+                            % (clist(geo["face_areas"], sq), clist(cols2(geo["face_centers"]), qp),
+                               clist(cols2(geo["face_normals"]), qp), clist(geo["cell_volumes"], qq),
+                               clist(cols2(geo["cell_centers"]), qp)))
+                nodes = clist([g.nodes[:2, i] for i in range(g.num_nodes)], qp)
+                term = (f"andb ({term}) (agree_sub_geometry {nodes} {_csc(cf)} {_csc(fn)} {c} "
+                        f"{cbool(case['sort'])} {impl})")
+            return term
         if k == "pstruct":
             if res.get("err") == "Other":
                 return None
